@@ -314,6 +314,7 @@ class Runner(object):
         self.t1_id = None
         self.exhausted = False
         self.rejected = None
+        self.script_failed = None
 
     # -- observation
     def t1_jobs(self):
@@ -419,7 +420,22 @@ class Runner(object):
             und = [j for j in w.undue_jobs() if not j.func_name.endswith('_check_and_fix_integrity')]
             paused = snap['wfs'][0]['state'] == 'PAUSED'
             choice = None
-            if und and (not en or self.rng.random() < case['tick_bias']):
+            script = case.get('script') or []
+            if n < len(script):
+                # a scripted schedule (corpus / theorem witnesses): 'tick:N' | 'resume' | a substring of the
+                # description of an enabled delivery
+                sel = script[n]
+                if sel.startswith('tick:'):
+                    choice = ('tick', int(sel[5:]))
+                elif sel == 'resume':
+                    choice = ('resume', None)
+                else:
+                    m = [e for e in en if sel in json.dumps(w.describe(e))]
+                    if not m:
+                        self.script_failed = [n, sel, [w.describe(e) for e in en]]
+                        break
+                    choice = ('deliver', m[0])
+            elif und and (not en or self.rng.random() < case['tick_bias']):
                 nxt = min(j.execute_at for j in und)
                 dt = int((nxt - w.now()).total_seconds())
                 if en and dt > 1 and self.rng.random() < 0.3:
@@ -751,6 +767,8 @@ def run_one(ctx, case, count_features=True):
         ctx.count('policy', 'disagreement')
         ctx.disagree('policy', replay_obj(runner), d.get('diff'), d)
     t_idx, via = taint_index(runner)
+    if via:
+        ctx.count('policy', 'tainted:' + via)
     for kind, detail in monitors(runner):
         sig = {'kind': kind, 'via': (via or 'none') if kind in TRACE_LEVEL else 'none'}
         if kind == 'crash':
